@@ -167,6 +167,13 @@ class FrameSpy:
 
         def _find_originating_frame(c14_scope, innermost=True):
             result = spy.orig(c14_scope, innermost)
+            if len(spy.records) >= 40 or sys._getframe().f_back is None:
+                return result         # a runaway recursion in a broken tree must not turn into thousands of deep stack walks
+            depth, fr = 0, sys._getframe()
+            while fr is not None and depth <= 400:
+                depth += 1; fr = fr.f_back
+            if depth > 400:
+                return result
             frames, chosen = [('_find_originating_frame', [], 0, [])], None
             fr = sys._getframe()
             gids, oids = {}, {}
